@@ -6,6 +6,21 @@ CHECKS = {
  "C01": ("relational runtime monitor at the View boundary: chain vs stand-alone parts vs Script/Probe/Tap-instrumented trees, bit identity at every step",
          "Held on the executions explored: every unary wrapper over every inner view, every combinator over every pair, PFE/EFT in both slots, random triples and random trees with Probe leaves, three scalars. Exploration is the right level: the property is a relation between observable executions of the real code and the space (views x views x N x inputs) is sampled, not enumerable.",
          "harness Dyn/Script/Probe/Tap views; release profile; trials cut at the first non-finite inner output"),
+ "C02": ("reference-model monitor: batch definitions over the last min(t,N) values evaluated from the recorded history in exact rational arithmetic; real code run at the exact scalar (equality at every step) and at f64 (a-priori rounding envelope)",
+         "Held on the executions explored: 10 views x N grid x 18 input classes (ties, zeros, negatives, spikes entering/leaving, evictions of the current extremum, flat windows, zero bases - counted by the oracle) at both scalars, incl. the mean()/variance() getters.",
+         "sample std of one value = 0; f64 Vst/Vsct steps with std inside the rounding envelope are left to C16"),
+ "C03": ("relational monitor: two instances fed different prefixes (0..20N values, up to 2^40 x larger) and a common suffix; outputs compared from the K-th suffix value on, exactly at the exact scalar, within the envelope at f64",
+         "Held on the executions explored: all 17 listed views x N grid x 6 prefix styles x 4 suffix classes.",
+         "documented hold steps (MyRSI flat window, Roc zero base) are identified by the exact oracle and skipped"),
+ "C04": ("clause monitors (interval, constant, monotone, affine, defining recursion / kernel) on Sma, Ema, Alma at the exact scalar (exact inequalities and equalities) and at f64 (envelope)",
+         "Held on the executions explored: default and custom alpha / sigma / offset, N grid, input classes with exact zeros and sign changes.",
+         "Alma: both weight-assignment readings the statements admit are accepted"),
+ "C05": ("reference-model monitor: gains/losses over the N most recent values from the recorded history in exact arithmetic; equality at the exact scalar, negation relation, conditioning-aware tolerance at f64",
+         "Held on the executions explored: Rsi and MyRSI x N grid x 12 input classes.",
+         "no claim where MyRSI has nothing to hold; f64 steps with G+L inside the rounding envelope are left to C07/C16"),
+ "C06": ("reference-model monitor: Pearson / Kendall tau-a / centre-of-gravity of the current window from the recorded history in exact arithmetic; negation and order-only (strictly increasing maps) relations",
+         "Held on the executions explored: CTI, NET, CoG x N 3..64 x 12 input classes + partially shuffled streams.",
+         "CTI at the exact scalar compared to 1e-12 (irrational root); f64 steps inside the cancellation envelope left to C07/C16"),
  "C08": ("readiness automaton per node (Taps on every node of single views and chains) + documented warm-up table + Script children that deliver nothing; dev and release profiles, three scalars",
          "Held on the executions explored: every view x N grid x degenerate input classes, chains, long runs (1e4 quick / 1e6 thorough updates). 'For ever' is restated as no relapse and no non-finite value within those run lengths; no finite run decides the unbounded claim.",
          "a node is only judged while its own inputs stayed finite, in domain and below 2^40; a panic of the code under test ends the trial (C15 reports it)"),
